@@ -89,6 +89,7 @@ where
     macro_rules! gfree { ($i:expr) => {{ grow(&mut r.g, $i); r.g[$i].is_none() }}; }
     macro_rules! has_c { ($i:expr) => {{ grow(&mut r.c, $i); r.c[$i].is_some() }}; }
     match op {
+        Op::Late => "skip".into(),
         Op::New { h, val } | Op::NewP { h, val } => {
             if !hfree!(*h) {
                 return "skip".into();
